@@ -57,3 +57,64 @@ def tags_oracle(rules, bs):
                 if t:
                     out.add(t)
     return out
+
+
+# --------------------------------------------------------------------------- specificity oracle
+PATTERN_FUNCS = {'contains', 'regex', 'normalized', 'startswith', 'fuzzy', 'anyof'}
+CONSTRAINT_NAMES = {'amount', 'date', 'month', 'year', 'day', 'weekday', 'source'}
+
+
+def spec_key_from_ast(expr_src):
+    """(pattern calls, constraint kinds, total literal length) read off the Python AST of the
+    expression text - independent of tally's substring counting."""
+    import ast
+    tree = ast.parse(expr_src, mode='eval')
+    pc = 0
+    kinds = set()
+    plen = 0
+    for node in ast.walk(tree):
+        if isinstance(node, ast.Call) and isinstance(node.func, ast.Name) and node.func.id.lower() in PATTERN_FUNCS:
+            pc += 1
+        if isinstance(node, ast.Name) and node.id.lower() in CONSTRAINT_NAMES:
+            kinds.add(node.id.lower())
+        if isinstance(node, ast.Attribute) and isinstance(node.value, ast.Name) and node.value.id.lower() == 'field':
+            kinds.add('field.')
+        if isinstance(node, ast.Constant) and isinstance(node.value, str):
+            plen += len(node.value)
+    return (pc, len(kinds), plen)
+
+
+# canonically spelled expressions (no keyword inside a literal or identifier, no blanks before "(")
+SPEC_EXPRS = [
+    'contains("AB")',
+    'contains("CD")',
+    'contains("AB") and contains("C")',
+    'contains("ABC")',
+    'contains("EF") and amount > 5',
+    'regex("A.B") and month == 12 and amount > 5',
+    'startswith("ABCD")',
+    'source == "X"',
+    'anyof("A", "B")',
+    'normalized("GH") and source == "Q"',
+    'amount > 7',
+    'contains("IJ") and field.k == "v"',
+]
+
+
+def most_specific_oracle(rules, bs, keys):
+    """keys[i] = (pc, kinds, plen) of rule i.  Returns (category rule, subcategory rule)."""
+    best = None
+    best_key = None
+    sbest = None
+    sbest_key = None
+    for r, b, k in zip(rules, bs, keys):
+        if not b:
+            continue
+        if r.category == '':
+            continue            # C02: a rule without category never categorizes
+        key = (r.priority,) + tuple(k)
+        if best is None or key > best_key:
+            best, best_key = r, key
+        if r.subcategory != '' and (sbest is None or key > sbest_key):
+            sbest, sbest_key = r, key
+    return best, sbest
